@@ -16,4 +16,21 @@ impl FieldData {
     #[verifier::external_body] pub fn is_public(&self) -> (r: bool) ensures r == self.s_public() { unimplemented!() }
 }
 
+// ---- CompInfo::compute_bitfield_units: which packing rule the allocation of bit-field units is run with
+pub struct Layout { pub size: usize, pub align: usize, pub packed: bool }
+#[verifier::external_body] pub struct BindgenContext { _p: core::marker::PhantomData<()> }
+#[verifier::external_body] pub struct CompFields { _p: core::marker::PhantomData<()> }
+impl CompFields {
+    // the `packed` flag bitfields_to_allocation_units was run with (unit bf_alloc: its contracts are stated per flag)
+    pub uninterp spec fn s_allocated_as_packed(&self) -> bool;
+    #[verifier::external_body] pub fn compute_bitfield_units(&mut self, ctx: &BindgenContext, packed: bool)
+        ensures final(self).s_allocated_as_packed() == packed { unimplemented!() }
+}
+pub struct CompInfo { pub fields: CompFields, pub packed_attr: bool }
+impl CompInfo {
+    // CompInfo::is_packed (under contract in unit packed): the attribute, or #pragma pack seen through the member layouts
+    pub uninterp spec fn s_is_packed(&self, ctx: &BindgenContext, layout: Option<&Layout>) -> bool;
+    #[verifier::external_body] pub fn is_packed(&self, ctx: &BindgenContext, layout: Option<&Layout>) -> (r: bool) ensures r == self.s_is_packed(ctx, layout) { unimplemented!() }
+}
+
 } // verus!
